@@ -82,7 +82,7 @@ def mutators(model, class_quals, skip_init=True):
     return out
 
 
-def provenance(ctx, fi, expr, depth=5):
+def provenance(ctx, fi, expr, depth=5, _follow=2):
     """Set of provenance classes of a receiver expression."""
     m, P, F = ctx.model, ctx.program, ctx.flow
     kinds = set()
@@ -101,6 +101,17 @@ def provenance(ctx, fi, expr, depth=5):
             if last in ("pop",):
                 kinds.add("under-construction")
                 continue
+            if r in m.functions and _follow > 0:
+                # the search depth ran out at a call of a repository
+                # function: what it returns, with a fresh budget
+                rf = m.functions[r]
+                rets = [x.value for x in walk_shallow(rf.node)
+                        if isinstance(x, ast.Return) and x.value is not None]
+                if rets:
+                    for rv in rets:
+                        kinds |= provenance(ctx, rf, rv, depth=3,
+                                            _follow=_follow - 1)
+                    continue
             kinds.add("other:" + d)
         elif o.kind == "attr":
             t = src(n)
